@@ -2,13 +2,13 @@ package world
 
 import (
 	"crypto/sha512"
-	"errors"
 	"fmt"
 	"io/fs"
 	"os"
 	"sort"
 	"strconv"
 	"strings"
+	"syscall"
 	"time"
 )
 
@@ -23,6 +23,9 @@ type TSM struct {
 	seq     int
 	// FailAt > 0 makes the FailAt-th client call fail (I/O fault injection).
 	FailAt int
+	// FailKind, if set, makes EVERY call of that kind ("readdir", "read", "write", "mkdir") fail
+	// from the FailAt-th client call on (a persistent fault).
+	FailKind string
 	calls  int
 	Fired  bool
 }
@@ -46,10 +49,18 @@ const tsmRoot = "/sys/kernel/config/tsm/rtmrs"
 // NewTSM returns an empty TSM.
 func NewTSM() *TSM { return &TSM{Entries: map[string]*TSMEntry{}, Reg: map[int][48]byte{}} }
 
-var errInjected = errors.New("simulated TSM: injected I/O error (EIO)")
+// errors carry the errno a real configfs would return, wrapped the way the os package does
+var errInjected error = &os.PathError{Op: "io", Path: "configfs-tsm", Err: syscall.EIO}
 
-func (t *TSM) fault() bool {
+func (t *TSM) fault(kind ...string) bool {
 	t.calls++
+	if t.FailAt > 0 && t.FailKind != "" {
+		if t.calls >= t.FailAt && len(kind) == 1 && kind[0] == t.FailKind {
+			t.Fired = true
+			return true
+		}
+		return false
+	}
 	if t.FailAt > 0 && t.calls == t.FailAt {
 		t.Fired = true
 		return true
@@ -100,7 +111,7 @@ func split(p string) (string, string, bool) {
 
 // MkdirTemp implements configfsi.Client.
 func (t *TSM) MkdirTemp(dir, pattern string) (string, error) {
-	if t.fault() {
+	if t.fault("mkdir") {
 		t.rec("mkdir", dir+"/"+pattern, nil, errInjected)
 		return "", errInjected
 	}
@@ -135,7 +146,7 @@ func (i tsmInfo) Sys() any           { return nil }
 
 // ReadDir implements configfsi.Client.
 func (t *TSM) ReadDir(dirname string) ([]os.DirEntry, error) {
-	if t.fault() {
+	if t.fault("readdir") {
 		t.rec("readdir", dirname, nil, errInjected)
 		return nil, errInjected
 	}
@@ -159,7 +170,7 @@ func (t *TSM) ReadDir(dirname string) ([]os.DirEntry, error) {
 
 // ReadFile implements configfsi.Client.
 func (t *TSM) ReadFile(name string) ([]byte, error) {
-	if t.fault() {
+	if t.fault("read") {
 		t.rec("read", name, nil, errInjected)
 		return nil, errInjected
 	}
@@ -199,14 +210,21 @@ func (t *TSM) ReadFile(name string) ([]byte, error) {
 
 // WriteFile implements configfsi.Client.
 func (t *TSM) WriteFile(name string, contents []byte) error {
-	if t.fault() {
+	if t.fault("write") {
 		t.rec("write", name, contents, errInjected)
 		return errInjected
 	}
 	e, attr, ok := split(name)
 	ent := t.Entries[e]
 	fail := func(msg string) error {
-		err := errors.New("simulated TSM: " + msg)
+		var errno syscall.Errno = syscall.EINVAL
+		switch {
+		case strings.HasPrefix(msg, "EBUSY"):
+			errno = syscall.EBUSY
+		case strings.HasPrefix(msg, "no such"):
+			errno = syscall.ENOENT
+		}
+		err := &os.PathError{Op: "write", Path: name, Err: errno}
 		t.rec("write", name, contents, err)
 		return err
 	}
